@@ -612,6 +612,11 @@ def specs(ctx):
         add(workers=workers, pre="catalog_other", overwrite=True, fault=dict(kind="nan", chunk=1, col="w"))
         add(workers=workers, pre="catalog_other", overwrite=False, fault=dict(kind="nan", chunk=1, col="w"))
         add(workers=workers, pre="noparent", fault=dict(kind="inf", chunk=2, col="z"))
+        # the same missing value in another representation: a pandas table whose column holds python objects
+        # (None / a float nan inside dtype=object), every column, both patch modes
+        for (k, col) in (("objnone", "dec"), ("objnone", "w"), ("objnan", "ra"), ("objnone", "z"), ("objnan", "w"), ("objnan", "z")):
+            add(workers=workers, source="df", shape=shape(), patch="name", fault=dict(kind=k, chunk=1, col=col))
+            add(workers=workers, source="df", shape=shape(), patch="centers", fault=dict(kind=k, chunk=rng.choice([0, 2]), col=col))
         # other sources
         add(workers=workers, **unequal_kw(shape(), 0, source="hdf5"))
         add(workers=workers, source="hdf5", fault=dict(kind="missing", chunk=0, col="z"))
@@ -846,6 +851,8 @@ def expected_of(spec):
         return sorted(rows), None
     cols, near, cent = drv.make_input(spec)
     cols = drv.apply_fault(spec, cols)
+    cols = {k: (np.asarray([float("nan") if x is None else x for x in v], dtype=float) if getattr(v, "dtype", None) == object else v)
+            for k, v in cols.items()}      # a column of python objects: the missing value as NaN (such a run has to raise anyway)
     fields = [np.deg2rad(cols["ra"]), np.deg2rad(cols["dec"])]
     if spec["weights"]:
         fields.append(cols["w"])
